@@ -322,6 +322,9 @@ type omapCase struct {
 	// collection; every serialisation is checked on the spot: no key twice, and every key whose insertion had returned
 	// before the serialisation began is there
 	Stress int `json:"stress"`
+	// Counter > 0: Goroutines goroutines call Update (value + 1) this many times each on two keys that exist, next to two
+	// goroutines that read; afterwards every key must hold exactly Goroutines * Counter: no update is lost
+	Counter int `json:"counter"`
 }
 
 type stressObs struct {
@@ -332,6 +335,60 @@ type stressObs struct {
 	Missing  int    `json:"missing_reads"`
 	Example  string `json:"example,omitempty"`
 	Panic    string `json:"panic,omitempty"`
+	Lost     int    `json:"lost_updates"`
+}
+
+func counter(c omapCase, m coll, emit func(interface{})) {
+	o := &stressObs{ID: c.ID, Kind: c.Kind}
+	g := c.Goroutines
+	if g < 2 {
+		g = 4
+	}
+	keys := []string{"c1", "c2"}
+	for _, k := range keys {
+		m.Set(k, 0)
+	}
+	var wg sync.WaitGroup
+	var stop int32
+	var mu sync.Mutex
+	for r := 0; r < 2; r++ {
+		go func() {
+			for atomic.LoadInt32(&stop) == 0 {
+				m.Get("c1")
+				m.Each()
+				m.Len()
+			}
+		}()
+	}
+	for i := 0; i < g; i++ {
+		wg.Add(1)
+		go func(i int) {
+			defer wg.Done()
+			defer func() {
+				if x := recover(); x != nil {
+					mu.Lock()
+					o.Panic = fmt.Sprint(x)
+					mu.Unlock()
+				}
+			}()
+			for n := 0; n < c.Counter; n++ {
+				m.Update(keys[(i+n)%2])
+			}
+		}(i)
+	}
+	wg.Wait()
+	atomic.StoreInt32(&stop, 1)
+	total := 0
+	for _, k := range keys {
+		v, _ := m.Get(k)
+		total += v
+	}
+	o.Reads = g * c.Counter
+	o.Lost = g*c.Counter - total
+	if o.Lost != 0 {
+		o.Example = itoa(g) + " goroutines x " + itoa(c.Counter) + " updates, the values add up to " + itoa(total)
+	}
+	emit(o)
 }
 
 func stress(c omapCase, m coll, emit func(interface{})) {
@@ -438,6 +495,10 @@ func cmdOmap(line []byte, emit func(interface{})) {
 	}
 	if c.Stress > 0 {
 		stress(c, m, emit)
+		return
+	}
+	if c.Counter > 0 {
+		counter(c, m, emit)
 		return
 	}
 	o := &omapObs{ID: c.ID, Kind: c.Kind}
